@@ -792,7 +792,7 @@ pub fn decode_extreme() -> Report {
 /// kind dispatch, lenient conversions, debug id precedence, sourceRoot joining, optional keys in any combination
 pub fn decode_document() -> Report {
     use sourcemap::decode_slice;
-    let bound = "documents with every combination of 9 optional keys (sections / x_facebook_sources / file string|number / names with numbers and null / null sources / sourceRoot / debug_id / debugId / junk header), keys in two orders; index documents with two sections of every kind pair (regular / Hermes / nested index), offsets given in and out of order";
+    let bound = "documents with every combination of 9 optional keys (sections / x_facebook_sources / file string|number / names with numbers and null / null sources / sourceRoot / debug_id / debugId / junk header), keys in two orders; names of every JSON type before a numeric and a string name; index documents with two sections of every kind pair (regular / Hermes / nested index), offsets given in and out of order";
     let mut cases = 0u64;
     let id1 = "00000000-0000-0000-0000-000000000001"; let id2 = "00000000-0000-0000-0000-000000000002";
     for mask in 0u32..(1 << 9) { for reversed in [false, true] {
@@ -851,6 +851,19 @@ pub fn decode_document() -> Report {
             o => return r("decode_document", bound, cases, Some(format!("document {doc} does not decode as a regular map: {:?}", o.map(|x| x.map(|_| ()).map_err(|e| e.to_string()))))),
         }
     }
+    // names that are neither strings nor numbers keep their slot: the names after them keep their indices
+    {
+        cases += 1;
+        let doc = r#"{"version":3,"sources":["a.js"],"names":[null,true,7,"real",[1],{"k":1},"last"],"mappings":"AAAAE,CAAAC,CAAAG"}"#;
+        match guarded(|| decode_slice(doc.as_bytes())) {
+            Ok(Ok(DecodedMap::Regular(sm))) => {
+                let got: Vec<Option<String>> = sm.tokens().map(|t| t.get_name().map(|s| s.to_string())).collect();
+                let want = vec![Some("7".to_string()), Some("real".to_string()), Some("last".to_string())];
+                if got != want { return r("decode_document", bound, cases, Some(format!("document {doc}: tokens with name indices 2, 3, 6 resolve to {got:?}, expected {want:?}"))); }
+                if sm.get_name_count() != 7 { return r("decode_document", bound, cases, Some(format!("document {doc}: {} names, 7 listed", sm.get_name_count()))); } },
+            o => return r("decode_document", bound, cases, Some(format!("document {doc} does not decode as a regular map: {:?}", o.map(|x| x.map(|_| ()).map_err(|e| e.to_string()))))),
+        }
+    }
     for doc in [r#"{"version":3,"sections":[]}"#, r#"{"version":3,"file":"out.js","sections":[]}"#, r#"{"version":3,"sections":[{"offset":{"line":0,"column":0},"map":{"version":3,"sections":[]}}]}"#] {
         cases += 1;
         match guarded(|| decode_slice(doc.as_bytes())) {
@@ -896,4 +909,53 @@ pub fn decode_document() -> Report {
         }
     }
     r("decode_document", bound, cases, None)
+}
+
+// ------------------------------------------------------------------ C06 (document-level rejection)
+/// a malformed mappings string makes decoding fail wherever it sits in the document and whichever entry point reads it
+pub fn decode_reject() -> Report {
+    use sourcemap::{decode, decode_data_url, decode_slice};
+    let bound = "9 kinds of malformed segment (2 / 3 / 6 fields, source or name index past the array, index driven negative, cut-off value, 14 digits, foreign character) on the first line / after empty lines / as last segment of a later line; sources / names absent, null, empty or present, sourcesContent longer than sources; rangeMappings absent / empty / shorter / longer; as a regular document, a Hermes document, an index section (with and without url, nested); through decode_slice, decode, the typed from_slice constructors and a data URL; each with a well-formed control";
+    let mut cases = 0u64;
+    // (sources json or None, names json or None, number of sources, number of names)
+    let tables: Vec<(Option<&str>, Option<&str>, usize, usize)> = vec![(Some(r#"["a.js"]"#), Some(r#"["n"]"#), 1, 1), (None, None, 0, 0), (Some("null"), Some("null"), 0, 0), (Some("[]"), Some("[]"), 0, 0), (Some(r#"["a.js","b.js"]"#), None, 2, 0)];
+    let contents = [None, Some(r#"["x","y","z"]"#)];
+    let rmis = [None, Some(""), Some("B"), Some("B;;;;;;")];
+    for (srcs, names, nsrc, nnames) in &tables { for sc in &contents { for rmi in &rmis {
+        // a well-formed segment for these tables, and the malformed ones
+        let good = if *nsrc > 0 { "AAAA" } else { "A" };
+        let mut bads: Vec<(&str, String)> = vec![("2 fields", "AA".into()), ("3 fields", "AAA".into()), ("6 fields", "AAAAAA".into()), ("cut-off value", "g".into()), ("14 digits", "gggggggggggggA".into()), ("foreign character", "A*".into())];
+        bads.push(("source index past the array", enc(&[0, *nsrc as i64, 0, 0])));
+        bads.push(("source index driven negative", enc(&[0, -1, 0, 0])));
+        if *nsrc > 0 { bads.push(("name index past the array", enc(&[0, 0, 0, 0, *nnames as i64]))); }
+        for (what, bad) in &bads { for place in 0..3 {
+            let mappings = match place { 0 => format!("{bad},{good}"), 1 => format!("{good};;;{bad}"), _ => format!("{good};{good},{bad}") };
+            let control = match place { 0 => format!("{good},{good}"), 1 => format!("{good};;;{good}"), _ => format!("{good};{good},{good}") };
+            for (is_control, m) in [(true, &control), (false, &mappings)] {
+                let mut keys = vec![r#""version":3"#.to_string()];
+                if let Some(s) = srcs { keys.push(format!(r#""sources":{s}"#)); }
+                if let Some(n) = names { keys.push(format!(r#""names":{n}"#)); }
+                if let Some(c) = sc { keys.push(format!(r#""sourcesContent":{c}"#)); }
+                if let Some(x) = rmi { keys.push(format!(r#""rangeMappings":"{x}""#)); }
+                keys.push(format!(r#""mappings":"{m}""#));
+                let regular = format!("{{{}}}", keys.join(","));
+                let hermes = format!("{{{},\"x_facebook_sources\":[null]}}", keys.join(","));
+                let wrap = |inner: &str, url: bool| format!(r#"{{"version":3,"sections":[{{"offset":{{"line":0,"column":0}},{}"map":{inner}}}]}}"#, if url { r#""url":"x.map","# } else { "" });
+                let docs: Vec<(&str, String)> = vec![("regular document", regular.clone()), ("Hermes document", hermes.clone()), ("index section", wrap(&regular, false)), ("index section with a url", wrap(&regular, true)),
+                    ("Hermes map in an index section with a url", wrap(&hermes, true)), ("section of a nested index", wrap(&wrap(&regular, true), false))];
+                for (kind, doc) in &docs {
+                    cases += 1;
+                    let b = doc.as_bytes();
+                    let url = format!("data:application/json;base64,{}", refs::base64(b));
+                    let outcomes = match guarded(|| vec![("decode_slice", decode_slice(b).is_ok()), ("decode", decode(b).is_ok()), ("decode_data_url", decode_data_url(&url).is_ok()),
+                        ("typed from_slice", SourceMap::from_slice(b).is_ok() || SourceMapHermes::from_slice(b).is_ok() || SourceMapIndex::from_slice(b).is_ok())]) { Ok(o) => o, Err(p) => return r("decode_reject", bound, cases, Some(format!("{kind} {doc}: {p}"))) };
+                    for (entry, ok) in outcomes {
+                        if is_control { crate::witness(ok); if !ok { return r("decode_reject", bound, cases, Some(format!("{kind} {doc}: well-formed, but {entry} fails"))); } }
+                        else if ok { return r("decode_reject", bound, cases, Some(format!("{kind} {doc}: the mappings hold a segment with {what} ({bad:?}), yet {entry} returns a map"))); }
+                    }
+                }
+            }
+        } }
+    } } }
+    r("decode_reject", bound, cases, None)
 }
